@@ -439,6 +439,9 @@ func (w *Worker) WaitExit(d time.Duration) bool {
 
 // Stderr returns what the worker wrote to stderr (panic reports, fatal errors, race reports).
 func (w *Worker) Stderr() string {
+	if w == nil {
+		return ""
+	}
 	b, _ := os.ReadFile(w.errPath)
 	return string(b)
 }
